@@ -9,6 +9,7 @@ import (
 	"errors"
 	"fmt"
 	"strings"
+	"sync"
 
 	"github.com/pion/stun/v3/internal/hmac"
 )
@@ -122,9 +123,27 @@ func (i MessageIntegrity) Check(msg *Message) error {
 	// startOfHMAC should be first byte of integrity attribute.
 	startOfHMAC := messageHeaderSize + msg.Length - (attributeHeaderSize + messageIntegritySize)
 	b := msg.Raw[:startOfHMAC] // data before integrity attribute
-	expected := newHMAC(i, b, msg.Raw[len(msg.Raw):])
+	// The expected HMAC goes to a pooled scratch buffer. Using the spare
+	// capacity of msg.Raw made Check allocate whenever less than 20 spare
+	// bytes were left, e.g. for every message decoded into a Message that
+	// was only used for messages of the same size.
+	scratch := hmacScratchPool.Get().(*[sha1.Size]byte) //nolint:forcetypeassert
+	expected := newHMAC(i, b, scratch[:0])
 	msg.Length = length
 	msg.WriteLength() // writing length back
 
-	return checkHMAC(val, expected)
+	err = checkHMAC(val, expected)
+	if err == nil {
+		// On mismatch the error value may keep a reference to expected
+		// (debug build), so the buffer is reused only on success.
+		hmacScratchPool.Put(scratch)
+	}
+
+	return err
+}
+
+var hmacScratchPool = &sync.Pool{ //nolint:gochecknoglobals
+	New: func() interface{} {
+		return new([sha1.Size]byte)
+	},
 }
